@@ -468,6 +468,9 @@ func (c *Ctx) freshVersion(rule string, fn *ssa.Function, at ssa.Instruction, v 
 		}
 	}
 	if cell == nil {
+		cell = cellThroughLiteralsV(v) // a record captured through several nested literals (v_kvs_v.go)
+	}
+	if cell == nil {
 		c.Decide(rule, fn, what, at, false, "the stored record is not a local copy whose version was just assigned: it keeps whatever version the caller passed")
 		return
 	}
@@ -530,6 +533,9 @@ func (c *Ctx) freshVersion(rule string, fn *ssa.Function, at ssa.Instruction, v 
 				}
 			}
 		}
+	}
+	if !ok && at.Parent() != cell.Parent() && freshVersionThroughLiteralsV(cell, at, verField, newID) {
+		ok = true // assigned by the generator in an enclosing function before the literal that uses the record was made (v_kvs_v.go)
 	}
 	c.Decide(rule, fn, what, at, ok, detail)
 }
